@@ -23,7 +23,8 @@ file out, re-loaded with `xtuml.ModelLoader`).
      the corresponding part; an unknown component name raises OoaOfOoaException; a relationship of the component whose class lies outside
      it (or two classes with the same upper-cased key letters) makes the build raise MetaModelException; the SQL written by
      gen_sql_schema / xtuml.serialize_schema + serialize_unique_identifiers loads back to the same
-     definitions.
+     definitions; the file written by gen_sql_schema.main equals, character by character, the text an independent
+     printer (`ooa_encoder.py_sql_text`) produces for the diagram, CREATE UNIQUE INDEX lines included.
   K  the same canonical definitions from the Lean model: `extract d`, `extract (applyEdits es d)` and
      `schemaEdits (resolveAll d es) (extract d)` (lean/PyxModel/Extract).
 """
@@ -47,7 +48,7 @@ RULE = ('random class diagrams (1-5 classes, 0-6 relationships of every kind inc
         'applicable site (rename each attribute, retype each base attribute to each supported type, every permutation '
         'of the attributes of each class up to 4 attributes, each Mult / Cond value and a new phrase at each end, each '
         'class / relationship to each container, each class moved out of / into the component together with its '
-        'relationships, each class moved alone - the build must then raise MetaModelException because a relationship of the component lost a class) and random scripts; plus OPEN scopes on synthesised diagrams: components (nested ones, packages inside components) that hold a relationship but not all of its classes, initially or after unrestricted move edits - expected outcome MetaModelException, never a half-defined association. A case is non-trivial when the scope holds a formalised relationship and, '
+        'relationships, each class moved alone - the build must then raise MetaModelException because a relationship of the component lost a class) and random scripts; plus OPEN scopes on synthesised diagrams: components (nested ones, packages inside components) that hold a relationship but not all of its classes, initially or after unrestricted move edits - expected outcome MetaModelException, never a half-defined association; plus the SQL FILE character by character: for every third diagram (rows in modeled order) the text written by gen_sql_schema.main equals the specified text (CREATE TABLE per class sorted by upper-cased key letters, each followed by its CREATE UNIQUE INDEX lines, then the CREATE ROP lines sorted by rel_id). A case is non-trivial when the scope holds a formalised relationship and, '
         'if it has edits, the edits change the result; distinct = distinct case content')
 EXHAUSTIVE = {'quick': False, 'thorough': False}
 ASSUMPTIONS = [
@@ -249,6 +250,12 @@ def generate(ctx):
                 free.append(e)
             yield {'src': 'synth', 'diagram': d, 'comp': nm, 'drv': drv, 'edits': free, 'entry': 'mk',
                    'perm': r.randint(1, 1 << 30)}
+        if i % 3 == 1:
+            # the file gen_sql_schema.main writes, character by character (rows in modeled order: the order of the
+            # CREATE UNIQUE INDEX lines, of the key lists and of equal-numbered CREATE ROP lines is then defined)
+            nm = r.choice(choices)
+            yield {'src': 'synth', 'diagram': d, 'comp': nm, 'drv': drv, 'edits': [],
+                   'entry': 'sqltext', 'perm': None}
 
 
 # --------------------------------------------------------------------------- implementation side
@@ -316,6 +323,29 @@ def run_impl(case):
 
     with tempfile.TemporaryDirectory(dir=_ctx['tmp']) as tmpdir:
         loader, path = _loader_for(case, tmpdir)
+        if entry == 'sqltext':
+            out = os.path.join(tmpdir, 'schema.sql')
+            argv = ['gen_sql_schema', '-o', out] + (['-c', name] if name is not None else []) + \
+                   (['-d'] if drv else []) + [path]
+            import logging
+            saved = sys.argv
+            sys.argv = argv
+            try:
+                from bridgepoint import gen_sql_schema
+                gen_sql_schema.main()
+            finally:
+                sys.argv = saved
+                logging.disable(logging.CRITICAL)
+            text = open(out, encoding='utf-8').read()
+            want = E.py_sql_text(d0, sel0[1], drv)
+            if text != want:
+                k = next((j for j in range(min(len(text), len(want))) if text[j] != want[j]), min(len(text), len(want)))
+                fail('sql-text', 'the SQL file written by gen_sql_schema differs from the specified text at offset %d: written '
+                     '%r, specified %r' % (k, text[max(0, k - 60):k + 60], want[max(0, k - 60):k + 60]))
+            stats['sql_chars'] = len(text)
+            key = hashlib.sha1(json.dumps(case, sort_keys=True, default=str).encode()).hexdigest()
+            return {'obs': ['text', text], 'd_fail': fails[:3], 'nontrivial': 'CREATE ROP' in text and 'INDEX' in text,
+                    'key': key, 'stats': stats}
         try:
             if entry == 'mk':
                 m = loader.build_metamodel()
@@ -469,6 +499,8 @@ def _first_diff(got, want):
 def model_line(case):
     d = _diagram_of(case)
     name = Sym('none') if case['comp'] is None else case['comp']
+    if case['entry'] == 'sqltext':
+        return dumps([Sym('c14-sql'), E.diagram_sexp(d), name, bool(case['drv'])])
     return dumps([Sym('c14-edit'), E.diagram_sexp(d), name, bool(case['drv']), [E.edit_sexp(e) for e in case['edits']]])
 
 
@@ -477,6 +509,8 @@ def model_obs(case, ans):
         return ['error', str(ans[1])]
     if ans[0] == 'ok-error':
         return ['ok-error', E.canon_schema_sexp(ans[1]), str(ans[2])]
+    if case['entry'] == 'sqltext':
+        return ['text', ans[1]]
     s0, s1, s2 = (E.canon_schema_sexp(x) for x in ans[1:4])
     if s1 != s2:
         return ['model-inconsistent', s1, s2]
